@@ -207,5 +207,11 @@ fn y_matrix(
     })
 }
 
+// Verification hook (only compiled with `--cfg alpha_g_verif`).
+#[cfg(alpha_g_verif)]
+pub(crate) fn verif_wire_response() -> Vec<f64> {
+    WIRE_RESPONSE.clone()
+}
+
 #[cfg(test)]
 mod tests;
